@@ -63,6 +63,70 @@ def gen(tier, rng):
     return extra + cases
 
 
+def judge(ci, st, v, ops, out, line, h, orfail):
+    """the oracle on one scenario (real SSR output -> real hydration -> writes); appends to orfail; returns non-trivial?"""
+    html = bytes.fromhex(h).decode("utf8", "replace")
+    base = {"case": ci, "view": viewgen.sx_view(v), "state": viewgen.sx_state(st), "server_html": html[:600], "scenario": line}
+    dyn = any(t in viewgen.sx_view(v) for t in ("(dyn", "(show", "(list"))
+    if out[0].startswith("PANIC"):
+        orfail.append(dict(base, what="hydration panicked on output of the same view", message=bytes.fromhex(out[0][6:]).decode("utf8", "replace")))
+        return False
+    pre = c05.parse_nodes(out[0].split(" ; nodes ")[1])
+    changed = False
+    cur = st
+    prev = None
+    for k, l in enumerate(out[1:]):
+        if l.startswith("PANIC"):
+            orfail.append(dict(base, what="panic after hydration", step=k, message=bytes.fromhex(l[6:]).decode("utf8", "replace")))
+            break
+        parts = dict(p.split(" ", 1) if " " in p else (p, "") for p in l.split(" ; "))
+        nodes = c05.parse_nodes(parts["nodes"])
+        fresh = c05.parse_nodes(parts["fresh"])
+        if k > 0:
+            cur = c05.apply_op(cur, ops[k - 1])
+        if k == 0:
+            # every server element is adopted exactly once: same element ids, in the same order, none recreated
+            # (the <no-ssr> placeholder is replaced by the client-only content on mount, by design)
+            NOSSR = "6e6f2d737372:"
+            pre_el = [n[1] for n in pre if n[0] == "E" and not n[2].startswith(NOSSR)]
+            pre_ids = set(pre_el)
+            post_el = [n[1] for n in nodes if n[0] == "E" and n[1] in pre_ids]
+            new_el = [n for n in nodes if n[0] == "E" and n[1] not in pre_ids and "646174612d686b=" in n[2]]
+            if new_el:
+                orfail.append(dict(base, what="an element carrying a hydration key was created by the client instead of being adopted"))
+                break
+            if pre_el != post_el:
+                orfail.append(dict(base, what="server-rendered elements were recreated, moved or dropped by hydration", before=pre_el, after=post_el))
+                break
+            # ... and stamped: all and only the elements carrying a hydration key
+            for n in nodes:
+                if n[0] == "E":
+                    attrs = n[2].split(":", 1)[1]
+                    has_hk = "646174612d686b=" in attrs
+                    stamped = "646174612d6879647261746564=" in attrs
+                    if has_hk != stamped:
+                        orfail.append(dict(base, what="an element with a hydration key was not claimed (or one without was)", element=n[2][:120]))
+                        break
+            # the visible tree is unchanged
+            # (NoSsr content appears only on the client, by design)
+            if not has_kind(v, "nossr") and merge_text([x for x in norm_nodes(pre) if x[0] != "C"]) != merge_text([x for x in norm_nodes(nodes) if x[0] != "C"]):
+                orfail.append(dict(base, what="hydration changed the visible tree"))
+                break
+        if int(parts["warn"]) > 0 and False:
+            pass
+        # afterwards the view reacts exactly as a client-rendered one
+        vis = lambda ns: merge_text([x for x in norm_nodes(ns) if x[0] != "C"])      # marker comments are not part of the visible tree
+        # (NoHydrate content stays as the server sent it, by design: not comparable with a client render)
+        if not has_kind(v, "nohydrate") and vis(nodes) != vis(fresh):
+            orfail.append(dict(base, what="hydrated DOM differs from a fresh client render of the current state", step=k,
+                               dom=bytes.fromhex(parts["dom"]).decode("utf8", "replace")[:600]))
+            break
+        if prev is not None and prev != parts["nodes"]:
+            changed = True
+        prev = parts["nodes"]
+    return dyn and changed
+
+
 def main(argv):
     a, seed = vlib.args(argv)
     chk = vlib.Check(PID, a.tier, seed, "proof")
@@ -101,67 +165,7 @@ def main(argv):
         return chk.finish()
     orfail = []
     for ci, ((st, v, ops), out, line, h) in enumerate(zip(cases, impl, lines, htmls)):
-        html = bytes.fromhex(h).decode("utf8", "replace")
-        base = {"case": ci, "view": viewgen.sx_view(v), "state": viewgen.sx_state(st), "server_html": html[:600], "scenario": line}
-        dyn = any(t in viewgen.sx_view(v) for t in ("(dyn", "(show", "(list"))
-        if out[0].startswith("PANIC"):
-            orfail.append(dict(base, what="hydration panicked on output of the same view", message=bytes.fromhex(out[0][6:]).decode("utf8", "replace")))
-            chk.note_case(line, False)
-            continue
-        pre = c05.parse_nodes(out[0].split(" ; nodes ")[1])
-        changed = False
-        cur = st
-        prev = None
-        for k, l in enumerate(out[1:]):
-            if l.startswith("PANIC"):
-                orfail.append(dict(base, what="panic after hydration", step=k, message=bytes.fromhex(l[6:]).decode("utf8", "replace")))
-                break
-            parts = dict(p.split(" ", 1) if " " in p else (p, "") for p in l.split(" ; "))
-            nodes = c05.parse_nodes(parts["nodes"])
-            fresh = c05.parse_nodes(parts["fresh"])
-            if k > 0:
-                cur = c05.apply_op(cur, ops[k - 1])
-            if k == 0:
-                # every server element is adopted exactly once: same element ids, in the same order, none recreated
-                # (the <no-ssr> placeholder is replaced by the client-only content on mount, by design)
-                NOSSR = "6e6f2d737372:"
-                pre_el = [n[1] for n in pre if n[0] == "E" and not n[2].startswith(NOSSR)]
-                pre_ids = set(pre_el)
-                post_el = [n[1] for n in nodes if n[0] == "E" and n[1] in pre_ids]
-                new_el = [n for n in nodes if n[0] == "E" and n[1] not in pre_ids and "646174612d686b=" in n[2]]
-                if new_el:
-                    orfail.append(dict(base, what="an element carrying a hydration key was created by the client instead of being adopted"))
-                    break
-                if pre_el != post_el:
-                    orfail.append(dict(base, what="server-rendered elements were recreated, moved or dropped by hydration", before=pre_el, after=post_el))
-                    break
-                # ... and stamped: all and only the elements carrying a hydration key
-                for n in nodes:
-                    if n[0] == "E":
-                        attrs = n[2].split(":", 1)[1]
-                        has_hk = "646174612d686b=" in attrs
-                        stamped = "646174612d6879647261746564=" in attrs
-                        if has_hk != stamped:
-                            orfail.append(dict(base, what="an element with a hydration key was not claimed (or one without was)", element=n[2][:120]))
-                            break
-                # the visible tree is unchanged
-                # (NoSsr content appears only on the client, by design)
-                if not has_kind(v, "nossr") and merge_text([x for x in norm_nodes(pre) if x[0] != "C"]) != merge_text([x for x in norm_nodes(nodes) if x[0] != "C"]):
-                    orfail.append(dict(base, what="hydration changed the visible tree"))
-                    break
-            if int(parts["warn"]) > 0 and False:
-                pass
-            # afterwards the view reacts exactly as a client-rendered one
-            vis = lambda ns: merge_text([x for x in norm_nodes(ns) if x[0] != "C"])      # marker comments are not part of the visible tree
-            # (NoHydrate content stays as the server sent it, by design: not comparable with a client render)
-            if not has_kind(v, "nohydrate") and vis(nodes) != vis(fresh):
-                orfail.append(dict(base, what="hydrated DOM differs from a fresh client render of the current state", step=k,
-                                   dom=bytes.fromhex(parts["dom"]).decode("utf8", "replace")[:600]))
-                break
-            if prev is not None and prev != parts["nodes"]:
-                changed = True
-            prev = parts["nodes"]
-        chk.note_case(line, dyn and changed)
+        chk.note_case(line, judge(ci, st, v, ops, out, line, h, orfail))
     # correspondence with the client model Dom/Client.v: once hydrated, the visible tree after every write is the model's
     # (views whose scenario failed above are judged by the oracle; NoHydrate content stays as the server sent it, by design)
     failed = set(o["case"] for o in orfail)
@@ -274,8 +278,46 @@ def main(argv):
             mism.append({"what": "evaluation of hydratable", "detail": str(e)[-300:]})
     if hmodel is None:
         model = None
+    # children-first family (oracle only: the models allocate keys parent-first): the same kind of views with every element's
+    # children built BEFORE the element (a wrapper component that calls children.call() first, a child built first and inserted
+    # later), on the server and on the client: hydration keys are then not in document order
+    cf_cases = []
+    for i in range(120 if a.tier == "quick" else 1500):
+        st, v = viewgen.random_view(rng, rng.choice([2, 3, 4]), {"list": 0, "show": 1, "nossr": 0.5, "nohydrate": 0.5})
+        cf_cases.append((st, v, c05.gen_ops(rng, st, rng.randint(0, 3))))
+    E = lambda tag, *kids: ("el", tag, [], list(kids))
+    cf_cases += [({"s": {0: "0"}, "b": {}, "l": {}}, E("section", E("p", ("text", "Count: "), ("dyntext", 0))), [("s", 0, "1")]),
+                 ({"s": {0: "a"}, "b": {}, "l": {}}, ("el", "section", [("a", "class", "card")], [("el", "p", [("adyn", "class", 0)], [("text", "t")])]), [("s", 0, "b")]),
+                 ({"s": {}, "b": {0: True}, "l": {}}, E("div", E("ul", E("li"), ("dyn", 0, [E("li", E("b"))], [])), E("span")), [("b", 0, False), ("b", 0, True)])]
+    cf_fail = []
+    text = "\n".join("(seq (synccf %s %s))" % (viewgen.sx_state(st), viewgen.sx_view(v)) for st, v, _ in cf_cases) + "\n"
+    rc, so, se = vlib.run_driver(ssr, text)
+    cf_html = [b.split(" ")[0] for b in so.rstrip("\n").split("\n==\n")]
+    if rc != 0 or len(cf_html) != len(cf_cases):
+        cf_fail.append({"case": 0, "view": "", "what": "ssr-driver run (children-first)", "stderr": se[-600:]})
+    else:
+        cf_lines = ["(hydratecf x%s %s %s (%s))" % (h, viewgen.sx_state(st), viewgen.sx_view(v), " ".join(c05.sx_op(o) for o in ops))
+                    for (st, v, ops), h in zip(cf_cases, cf_html)]
+        try:
+            cf_impl = domlib.run(binp, cf_lines)
+            for ci, ((st, v, ops), out, line, h) in enumerate(zip(cf_cases, cf_impl, cf_lines, cf_html)):
+                if h == "PANIC":
+                    cf_fail.append({"case": ci, "view": viewgen.sx_view(v), "what": "render_to_string panicked (children-first)", "scenario": line})
+                    continue
+                chk.note_case(line, judge(ci, st, v, ops, out, line, h, cf_fail))
+        except RuntimeError as e:
+            cf_fail.append({"case": 0, "view": "", "what": "driver run (children-first)", "detail": str(e)[-600:]})
     findings = {f["key"]: f for f in vlib.load_findings(PID)}
     real = []
+    for o in cf_fail:
+        st, v = cf_cases[o["case"]][0], cf_cases[o["case"]][1]
+        key = classify(o, v, st) if o["view"] else None
+        if key and key in findings:
+            chk.known(findings[key], "e.g. (children-first) " + o["view"][:160])
+        else:
+            real.append(dict(o, mode="children-first: every element's children are built before the element"))
+    chk.obligation("oracle, children-first family: hydration adopts every server element once although the hydration keys are not in document order (%d scenarios)" % len(cf_cases),
+                   not real, str(real[:1]))
     for o in orfail:
         v = cases[o["case"]][1]
         key = classify(o, v, cases[o["case"]][0])
